@@ -324,6 +324,7 @@ func script(prop, scID string, items []string) {
 	cfg := sim.Config{Sc: sc, Actions: plan.Actions, Monitors: append([]sim.Monitor{sim.ContextTracker{}}, plan.Monitors(w, sc)...)}
 	ex := sim.NewExplorer(w, cfg, r)
 	ex.Script(items, true)
+	fmt.Println("counters:", ex.Counters)
 	for _, v := range r.RawViolations() {
 		fmt.Printf("VIOLATION %v\n   %v\n", v["signature"], v["detail"])
 	}
